@@ -40,6 +40,9 @@ type BE struct {
 	nFM int
 	// fresh values standing for non-linear results
 	dbg bool
+	// stablePtrFields: fields read through a pointer parameter are not mutated during the call (used by R14.3 for
+	// the immutable syntax tree); off for the C02 proof
+	stablePtrFields bool
 }
 
 func newBE(c *Ctx) *BE {
@@ -428,6 +431,13 @@ func (e *BE) accessPath(v ssa.Value) (ssa.Value, string, bool) {
 		}
 		al, ok := addr.(*ssa.Alloc)
 		if !ok {
+			// field of an object reached through a pointer: only when the caller declared such fields stable
+			// (not mutated while the function runs) are two loads of the same path the same variable
+			if e.stablePtrFields && len(names) > 0 {
+				if _, isParam := addr.(*ssa.Parameter); isParam {
+					return addr, "." + strings.Join(names, "."), true
+				}
+			}
 			return v, "", true
 		}
 		// find the value stored into the alloc (whole) or into the addressed field that reaches this load
